@@ -67,6 +67,8 @@ pub async fn run_scenario(scenario: &Scenario, out: Option<Out>) -> Vec<Value> {
         write_event(out, header.clone());
     }
     let streaming = out.is_some();
+    let light = scenario.meta.get("light").and_then(|v| v.as_bool()).unwrap_or(false);
+    deltio::verif::set_local_light(light);
     let world = World::start(scenario.cap, scenario.phase, out).await;
     let mut calls: HashMap<String, (usize, tokio::task::JoinHandle<()>)> = HashMap::new();
     let mut streams: HashMap<String, StreamHandle> = HashMap::new();
@@ -193,6 +195,7 @@ pub async fn run_scenario(scenario: &Scenario, out: Option<Out>) -> Vec<Value> {
         events.extend(world.take_events());
     }
     deltio::verif::install_local(None);
+    deltio::verif::set_local_light(false);
     events
 }
 
